@@ -231,6 +231,8 @@ def gen_c03(r):
     elif vk == "col":
         k = len(shp) if shp is not None else r.randint(1, 3)
         val = ["col", [rnd_val(r, dt) for _ in range(k)]] if k else ["scalar", rnd_val(r, dt)]
+        if k and dt[0] == "f" and r.random() < 0.5:
+            val[1][r.randrange(k)] = r.choice([[1, 0], [-1, 0]])          # an infinite entry next to finite ones
     elif vk == "flat":
         # the number of addressed cells of a row / flat selection
         cnt = r.randint(1, 4)
@@ -293,6 +295,8 @@ def gen_c04(r):
         b = ["py", pk, v]
     elif k == "col":
         b = ["col", dt2, [rnd_val(r, dt2) for _ in lens]]
+        if lens and dt2[0] == "f" and r.random() < 0.5:
+            b[2][r.randrange(len(lens))] = r.choice([[1, 0], [-1, 0]])
     else:
         pk = r.choice(["pyint", "pyfloat", "pybool"])
         b = ["collist", pk, [r.randint(0, 1) if pk == "pybool" else r.randint(-5, 9) if pk == "pyint" else [r.randint(-9, 9), 1] for _ in lens]]
